@@ -1,2 +1,3 @@
 pub mod table;
 pub mod iptable;
+pub mod query;
